@@ -18,6 +18,7 @@ import (
 	"verifsim/core"
 	"verifsim/faultdb"
 	"verifsim/models/keyoracle"
+	"verifsim/simrt"
 )
 
 var nsKey = []byte("waddrmgr")
@@ -147,6 +148,9 @@ func (r *run) scoped(si int) *waddrmgr.ScopedKeyManager {
 
 // Execute runs one plan.
 func (sim) Execute(env *core.Env, p *core.Plan) {
+	// map iteration order inside the instrumented packages is a function of
+	// the plan seed
+	simrt.SetMapSeed(core.Mix(p.Seed, 0x3a9) | 1)
 	r := &run{env: env, p: p, prop: p.Prop, net: netFor(p.C("net", 0)),
 		objs: map[string]waddrmgr.ManagedAddress{}, skip: map[string]bool{},
 		dryRunPending: map[string]bool{}}
